@@ -58,7 +58,7 @@ def pools(clsname):
     P = {
         # (astropy classes other than the default flat LCDM too: a constant-w model and a curved one)
         "cosmo_model": [Planck15, "WMAP9", Planck13, "Planck15", 3.0, FlatwCDM(H0=68.0, Om0=0.3, w0=-0.9, Ob0=0.048, Tcmb0=2.725), LambdaCDM(H0=68.0, Om0=0.3, Ode0=0.65, Ob0=0.048, Tcmb0=2.725)],
-        "cosmo_params": [{}, {"Om0": 0.3}, {"H0": 75.0}, {"Om0": 0.25, "Ob0": 0.04}, {"Tcmb0": 2.7}],
+        "cosmo_params": [{}, {"Om0": 0.3}, {"H0": 75.0}, {"Om0": 0.25, "Ob0": 0.04}, {"Tcmb0": 2.7}, {"Om0": 0.3075}, {"Om0": 0.3075, "H0": 67.74}],   # (the last two: Planck15's own values)
     }
     if clsname != "Cosmology":
         P.update({
@@ -239,6 +239,7 @@ def run_history(h, check_every=True, qsubset=None, r=None, stop_on_first=True):
                 other = obj
             try:
                 applied = {}
+                before_dicts = {k_: copy.deepcopy(v_) for k_, v_ in obj.parameter_values.items() if isinstance(v_, dict)}
                 if op[0] == "read":
                     for q in op[1]:
                         rec = read(obj, q)
@@ -287,6 +288,13 @@ def run_history(h, check_every=True, qsubset=None, r=None, stop_on_first=True):
                     pv_ = obj.parameter_values.get(k_)
                     if not (isinstance(pv_, (int, float, np.integer, np.floating)) and float(pv_) == float(v_)):
                         viol.append({"at": i, "kind": "accepted-value-not-applied", "parameter": k_, "requested": repr(v_), "reported": repr(pv_)})
+            # ... and an accepted dict is merged key-wise into the stored one ({} clears it), whatever the values are
+            for k_, v_ in applied.items():
+                if isinstance(v_, dict) and k_ in before_dicts and all(isinstance(x_, (int, float, str, bool, type(None))) for x_ in v_.values()):
+                    want_d = {} if v_ == {} else dict(before_dicts[k_], **v_)
+                    got_d = obj.parameter_values.get(k_)
+                    if canon(got_d) != canon(want_d):
+                        viol.append({"at": i, "kind": "accepted-dict-not-merged", "parameter": k_, "stored_before": show(before_dicts[k_]), "requested": show(v_), "reported": show(got_d), "expected": show(want_d)})
             if viol and stop_on_first:
                 break
             # oracle
